@@ -10,7 +10,8 @@ Inductive C09_op : Type :=
 Inductive C09_out : Type :=
 | OSer (bytes : list Z) (dec : res val)
 | OSerFail (r : res unit)
-| ODec (dec : res val).
+| ODec (dec : res val)
+| OAbort.                    (* the process aborted (allocation of a wire-supplied length failed) *)
 
 Record C09_case : Type := mkC09 { c_op : C09_op; c_out : C09_out }.
 
@@ -36,6 +37,13 @@ Definition C09_model_ok (c : C09_case) : bool :=
     | _, _ => false
     end
   | Dec t bs, ODec dec => resv_eqb (decode t bs) dec
+  | Rt v e t x, OAbort =>
+    (* an abort can only come from Vec::with_capacity(length) in the decoder: the model's
+       decoder must reject the same bytes *)
+    match encode v e t x with
+    | Ok bs => negb (is_ok (decode t bs))
+    | _ => false
+    end
   | _, _ => false
   end.
 
@@ -48,6 +56,7 @@ Definition C09_oracle_ok (c : C09_case) : bool :=
       padding_ok bs && match dec with Ok y => val_eqb x y | _ => false end
     else true
   | Rt v e t x, OSerFail _ => negb (wf_ty t && is_aggr t && wt t x)
+  | Rt v e t x, OAbort => negb (wf_ty t && is_aggr t && wt t x)
   | Dec _ _, _ => true
   | _, _ => false
   end.
